@@ -62,4 +62,7 @@ def iterPasses : List IterRow := [
     constructors (reads after `value = …`, inside `isinstance(value, …)` and `value is None` do not count) -/
 def callerLoads : List (String × Nat) := [("_AttrIterable.__init__", 1), ("_AttrIterable.maybe", 1), ("AttrTensors.__init__", 1)]
 
+/-- observed on this run: the list classes keep a reference (`_Ref`) handed to `AttrX(...)` / `AttrX.maybe(...)` -/
+def keepsRef : List (String × Form × Bool) := [("AttrInt64s", .direct, true), ("AttrInt64s", .maybe, true), ("AttrFloat32s", .direct, true), ("AttrFloat32s", .maybe, true), ("AttrStrings", .direct, true), ("AttrStrings", .maybe, true), ("AttrTensors", .direct, true), ("AttrTensors", .maybe, true)]
+
 end Generated.AttrSites
